@@ -255,6 +255,13 @@ def run(prog, rep):
                         and "(*arg:self as None).value" in c and "(*arg:self as Some).value" in c and g.value is True and err_on_edge(body, g.dst, "ExpectedOptionalValue"):
                     ok = True
         rep.check(ok, "C06.Q", "%s :: optional operand" % f.id, f.loc(), "some/none: quantifier != ? → ExpectedOptionalValue", "some/none no longer require an optional operand")
+        tested = set()
+        for b in sorted(body.reachable()):
+            for g in switch_edges(body, tr, b):
+                for m in re.finditer(r"\.quantifier, &\*promoted\{_1 = tree_sitter::CaptureQuantifier::(\w+);", canon(g.cond)):
+                    tested.add(m.group(1))
+        rep.check(tested == {"ZeroOrOne"}, "C06.Q", "%s :: optional operand only" % f.id, f.loc(), "the operand's quantifier is compared with `?` and nothing else",
+                  "some/none accept further quantifiers (compared with %s): a list-valued operand is no longer rejected" % sorted(tested))
     # ---- B: block scopes
     rep.rule("C06.B", "every nested block (scan arm, if arm, for body, comprehension) is checked under its own VariableMap::nested(ctx.locals), created per arm; "
                       "the sources/conditions of a construct are checked in the enclosing context")
